@@ -264,7 +264,7 @@ def _run_sna2ctl(argv):
 
 
 def plan(tier, seed):
-    n = 4800 if tier == "quick" else 200000
+    n = 4800 if tier == "quick" else 100000
     nsh = 16 if tier == 'quick' else 64
     return [{'kind': 'hyp', 'tier': tier, 'n': n // nsh, 'seed': shard_seed(seed, PROPERTY, i)} for i in range(nsh)]
 
